@@ -654,7 +654,8 @@ EB_API EbErrorType svt_av1_dec_deinit(EbComponentType *svt_dec_component) {
 
     // Loop through the ptr table and free all malloc'd pointers per channel
     EbMemoryMapEntry *memory_entry = svt_dec_memory_map;
-    do {
+    /* the initial entry only anchors the list (its fields are never written): stop before it, also when nothing was allocated */
+    while (memory_entry != dec_handle_ptr->memory_map_init_address && memory_entry) {
         switch (memory_entry->ptr_type) {
         case EB_N_PTR: free(memory_entry->ptr); break;
         case EB_A_PTR:
@@ -672,7 +673,7 @@ EB_API EbErrorType svt_av1_dec_deinit(EbComponentType *svt_dec_component) {
         EbMemoryMapEntry *tmp_memory_entry = memory_entry;
         memory_entry                       = tmp_memory_entry->prev_entry;
         free(tmp_memory_entry);
-    } while (memory_entry != dec_handle_ptr->memory_map_init_address && memory_entry);
+    }
     free(dec_handle_ptr->memory_map_init_address);
     return return_error;
 }
